@@ -14,7 +14,7 @@ import CifModel.Lemmas.ParserDefect
 -/
 namespace CifModel
 open CifModel.Model CifModel.Model.Lexer CifModel.Model.Parser CifModel.Spec.Recovery CifModel.Spec.Grammar
-open CifModel.Gen.ErrCodes (CIF_MISSING_VALUE CIF_UNEXPECTED_VALUE CIF_DUP_ITEMNAME CIF_EMPTY_LOOP CIF_NO_BLOCK_HEADER CIF_PARTIAL_PACKET)
+open CifModel.Gen.ErrCodes (CIF_MISSING_VALUE CIF_UNEXPECTED_VALUE CIF_DUP_ITEMNAME CIF_EMPTY_LOOP CIF_NO_BLOCK_HEADER CIF_PARTIAL_PACKET CIF_INVALID_INDEX CIF_DISALLOWED_CHAR CIF_NULL_KEY)
 
 /-- **C12_clean** — a document in which the accept-all parse finds no defect triggers no callback under any policy and is
     read identically (= C01 for the callback side) -/
@@ -296,6 +296,33 @@ theorem C12_table_keys_instance :
     C12.check .unquotedKey 1 (a!"data_a _x {k:1}") (C12.blockA [a!"_x"] [.tbl [(a!"k", a!"k", .chr false (a!"1"))]]) = true ∧
     C12.check .misquotedKey 3 (a!"data_a _x {\n;k\n;:1}") (C12.blockA [a!"_x"] [.tbl [(a!"k", a!"k", .chr false (a!"1"))]]) = true ∧
     C12.check .missingValue 1 (a!"data_a _x {'k':}") (C12.blockA [a!"_x"] [.tbl [(a!"k", a!"k", .unk)]]) = true := by
+  decide +kernel
+
+/-- **C12_invalid_index** — a quoted table key that cannot be a table index (it holds a character CIF does not allow — the
+    scanner has reported the character and the report was answered "continue"): exactly one CIF_INVALID_INDEX, at the scanner's
+    line behind the key; the entry is dropped (its value is parsed and discarded, as for a null key); the table consists of the
+    entries before and the entries behind.  (parser.c since 8375485; before, the parse ended with 73 without any report.) -/
+theorem C12_invalid_index (o : Opts) (t : Tok) (s' : PS) (v : Val) (epost : List (Str × Spec.Lexical.Presentation × Val))
+    (X : List TokSpec) (fuel : Nat) (s1 : PS) (w1 : W) (acc1 : List (Str × Str × V))
+    (hn : ∀ pol w, nextTok o s1 pol w = .ok (t, s') w) (hty : t.ty = .key) (hbad : hasDisallowed (cstr t.text) = true)
+    (hwv : wfVal o v = true) (hepost : wfEntries o epost = true) (hf : szVal v + szEntries epost + 3 ≤ fuel)
+    (hre : Feeds o (consume s') (valToks v ++ (entriesToks epost ++ (.ctable, [125]) :: X))) :
+    ∃ s2 r, tableLoop o fuel s1 acc1 acceptAll w1
+        = .ok (denoteEntries o.dia o.normKey epost acc1, s2) { w1 with log := r :: w1.log }
+      ∧ r.code = CIF_INVALID_INDEX ∧ r.line = s'.scan.line ∧ Feeds o s2 X :=
+  table_invalid_index_tail o t s' v epost X fuel s1 w1 acc1 hn hty hbad hwv hepost hf hre
+
+set_option maxRecDepth 1000000 in
+/-- instances evaluated by the kernel: a key holding U+0001 — CIF_DISALLOWED_CHAR from the scanner, then CIF_INVALID_INDEX, the
+    entry is dropped, the parse returns CIF_OK; with the die handler the parse ends at the scanner's report.  And `{:1}`: ONE report
+    (CIF_NULL_KEY) — no CIF_MISSING_SPACE for the value that follows the colon directly (since 4804559). -/
+theorem C12_invalid_index_instance :
+    (parse C12.opts2 acceptAll [] (a!"data_a _x {'k\x01':1 'j':2}")).log.map (·.code) = [CIF_DISALLOWED_CHAR, CIF_INVALID_INDEX] ∧
+    (parse C12.opts2 acceptAll [] (a!"data_a _x {'k\x01':1 'j':2}")).rc = 0 ∧
+    cifEq (parse C12.opts2 acceptAll [] (a!"data_a _x {'k\x01':1 'j':2}")).cif
+      (C12.blockA [a!"_x"] [.tbl [(a!"j", a!"j", .chr false (a!"2"))]]) = true ∧
+    (parse C12.opts2 (fun i _ => if i = 1 then 73 else 0) [] (a!"data_a _x {'k\x01':1 'j':2}")).rc = 73 ∧
+    (parse C12.opts2 acceptAll [] (a!"data_a _x {:1}")).log.map (·.code) = [CIF_NULL_KEY] := by
   decide +kernel
 
 set_option maxRecDepth 1000000 in
